@@ -137,7 +137,7 @@ func (cc *ClientConn) handleTransaction(transaction Transaction) {
 
 func (cc *ClientConn) Authenticate(login string, password []byte) bool {
 	if account := cc.Server.AccountManager.Get(login); account != nil {
-		return bcrypt.CompareHashAndPassword([]byte(account.Password), password) == nil
+		return bcrypt.CompareHashAndPassword([]byte(account.Password), bcryptInput(password)) == nil
 	}
 
 	return false
